@@ -16,7 +16,7 @@ Request:
     -> {"e":<exception>,"phase":"init"}                       a constructor raised
      | {"vcs":[D..],"outs":[{"d":data,"c":D} | {"e":<exception>} ..]}  plus, with "spec":true, "wf":[bool..],"namesok":bool,…
        `vcs` the var_contexts of the constructed variables, `outs[i]` = the variables applied one after the
-       other (`seqCall`) to `vals[i]`, `wf[i]` = `chainWFb` (the hypothesis `ChainWF` of `compose_eq_sequence`)
+       other (`seqCall`) to `vals[i]`, `wf[i]` = `chainWFb` (the hypothesis `ChainWF` of `compose_eq_sequence_partial`)
        for `vals[i]`, `namesok` = `namesOKb` (hypothesis `NamesOK`); specification side: `cok[i]` = `chainOKb`,
        `sdata[i]` = `composeData`, `cdata[i]` = `chainData`, `stypes` = `argsTypes`, `sup[i]` = the fold of `UP` from
        `preDict` when `wf[i]` (else null), `lok` = all expressions are plain variables with `leavesOKb`, `lctx` = their `Leaf.ctx`.
@@ -164,7 +164,7 @@ def handle (j : Json) : Json :=
           else
             -- the hypotheses of the theorems (`NamesOK`, `ChainWF`) for every value, as Boolean checks, and the
             -- specification side (the definitions the theorems are stated with), executed on the same case:
-            -- `chainOKb` (syntactic hypothesis of `compose_eq_sequence_expr`), `composeData`, `chainData`, `argsTypes`,
+            -- `chainOKb` (syntactic hypothesis of `compose_eq_sequence_expr_partial`), `composeData`, `chainData`, `argsTypes`,
             -- the fold of `UP` from `preDict` (right-hand side of `seqCall_result`), `leavesOKb` and `Leaf.ctx`
             let ctxs := vars.map Variable.varCtx
             let wfl := vals.map (fun x => chainWFb names (cvarOf names x) ctxs)
